@@ -195,6 +195,10 @@ def run(run: Run) -> None:
                 us.append((4, ("GEN", name, 4, s), SA[(i + 1) % 2], "exploitability", f"gen4:{name}:{s}", triples, seed))
     sam = A.a3_sam()
     us.append((3, sam[(11 * (seed + 1)) % len(sam)], "sam_apx_1", "l1_norm", "sam3", (), seed))
+    big3 = A.shifted(pick3[0], tuple(A.BIG * x for x in (1, -1, 2)))
+    us.append((3, [big3, A.scaled(pick3[1], A.TINY)], SA[0], "l1_norm", "exact3-scales", (), seed))
+    nonsa = [g for g in A.a3_any() if not A.is_superadditive(g)]
+    us.append((3, [nonsa[(131 * (seed + 1)) % len(nonsa)], nonsa[(977 * (seed + 3)) % len(nonsa)]], SA[1], "linf_norm", "exact3-nonsa", (), seed))
     g5 = A.shifted(tuple(A.popcount(s) ** 2 + (s % 3) for s in range(32)), (1, -1, 2, 0, 3))
     keep5 = (3, 12, 7, 25, 30, 15)            # six explorable coalitions of mixed sizes -> 64 env states
     us.append((5, [g5, A.scaled(g5, 0.5)], SA[1], "l1_norm", "exact5-six-explorable", tuple(s for s in A.explorable_ids(5) if s not in keep5), seed))
